@@ -177,7 +177,7 @@ DETECT.update({
     "C09-h": (["C09", "C01"], "DETECTED", "UndoTx leaves the delete marker when it undoes a delete of a live key (same idea as C01-a)"),
     "C10-h": (["C01", "C02", "C03", "C18"], "MISSED by C10", "UndoTx removes the re-installed earlier delete marker when it undoes a second delete: an XModel defect below C10's backing reader; the node machines catch it (C01 at seeds 2 and 3, C02 / C03 / C18 at seed 1) because generated programs delete deleted keys and conflicting blocks evict them"),
     "C11-h": (["C18"], "MISSED by C11", "same change as C18-g (queryTx asks the confirmed table first): the tip snapshot takes a pending ACL write for confirmed once a losing side block carries the transaction; C11's pipeline has no side blocks carrying pending rule changes, C18 catches the snapshot"),
-    "C12-h": (["C12"], "MISSED", "needed selections with excludeUnconfirmed (a third selector entry) and yield points inside SelectUtxos (hook e0cb9d0): the skipped-and-unlocked output is unlocked a second time when the selection gives up, dropping another selector's lock. Probabilistic in the quick tier even with the targeted request family 'selectors-exclude-gives-back' (final harness: VERIF_SEED 2 and 3 yes, 1 no; the address must also own an unconfirmed output at that moment)"),
+    "C12-h": (["C12"], "MISSED", "needed selections with excludeUnconfirmed (a third selector entry) and yield points inside SelectUtxos (hook e0cb9d0): the skipped-and-unlocked output is unlocked a second time when the selection gives up, dropping another selector's lock. Probabilistic in the quick tier even with the targeted request family 'selectors-exclude-gives-back' (final harness: VERIF_SEED 1 and 2 yes, 3 no)"),
     "C13-h": (["C01"], "MISSED by C13", "UndoTx puts an earlier delete marker back only when the undone write was a delete: an XModel undo defect; C13's pools never hold re-write + second delete of a deleted key across a walk, C01 catches it"),
     "C14-h": (["C14"], "MISSED", "needed the path block-known: the proposal is already a node of the pending tree (heard through a proposal message) when its certificate is checked"),
     "C15-h": (["C15"], "DETECTED", "commit clean-up rebuilds the orphan map from the orphan heads only: a nested orphan delivered again is stored twice"),
